@@ -483,6 +483,28 @@ func main() {
 		}
 	}
 	o.def("cleanupGlobExpr", "String", lstr(glob), "deleteTempFiles: the glob pattern expression")
+	// the continuous recorder's disk management (C17; model TR/Excess): the pattern, the test that ends the loop, which match goes
+	exGlob, exTest, exVictim := "<missing>", "<missing>", "<missing>"
+	if fd := funcDecl(cfrGo, "deleteExcessRecordings"); fd != nil {
+		if n := find(fd, func(n ast.Node) bool { _, ok := isCall(n, "filepath.Glob"); return ok }); n != nil {
+			c := n.(*ast.CallExpr)
+			if j, ok := c.Args[0].(*ast.CallExpr); ok && len(j.Args) == 2 {
+				exGlob = src(j.Args[1])
+			}
+		}
+		if n := find(fd, func(n ast.Node) bool {
+			i, ok := n.(*ast.IfStmt)
+			return ok && strings.Contains(src(i.Cond), "percentageLeft")
+		}); n != nil {
+			exTest = src(n.(*ast.IfStmt).Cond)
+		}
+		if n := find(fd, func(n ast.Node) bool { _, ok := isCall(n, "os.Remove"); return ok }); n != nil {
+			exVictim = src(n.(*ast.CallExpr).Args[0])
+		}
+	}
+	o.def("excessGlobExpr", "String", lstr(exGlob), "deleteExcessRecordings: the glob pattern")
+	o.def("excessStopTest", "String", lstr(exTest), "deleteExcessRecordings: the condition under which nothing (more) is deleted")
+	o.def("excessVictimExpr", "String", lstr(exVictim), "deleteExcessRecordings: the file removed in one pass of the loop")
 	layout := "<missing>"
 	if fd := funcDecl(cfrGo, "newRecordingTempName"); fd != nil {
 		if n := find(fd, func(n ast.Node) bool {
